@@ -295,3 +295,46 @@ Proof.
   destruct (forM_ _ (dedup_s axes)) as [[]|err]; [|exists err; reflexivity]. cbn [bind]. rewrite Hk.
   apply (scan_combinations_none reg ad) in Hu. rewrite Hu. exists KeyError. reflexivity.
 Qed.
+
+(* --- C20 for the metric operations: a request naming an axis the grid lacks, or made for an
+   array that lacks (or has two) dimensions of a requested axis, is refused --------------- *)
+Lemma forM_err_in {T} (f : T -> res unit) l x e :
+  In x l -> f x = Err e -> exists e', forM_ f l = Err e'.
+Proof.
+  induction l as [|y l IH]; intros Hin Hf; [contradiction|]. cbn [forM_].
+  destruct Hin as [->|Hin].
+  - rewrite Hf. exists e. reflexivity.
+  - destruct (f y) as [[]|e0]; [apply IH; assumption | exists e0; reflexivity].
+Qed.
+
+Lemma in_dedup_s x : forall l, In x l -> In x (dedup_s l).
+Proof.
+  induction l as [|y l IH]; intros H; [contradiction|]. cbn [dedup_s].
+  destruct (String.eqb x y) eqn:E.
+  - apply String.eqb_eq in E. subst. left. reflexivity.
+  - right. apply filter_In. split.
+    + apply IH. destruct H as [H|H]; [subst; rewrite String.eqb_refl in E; discriminate | exact H].
+    + rewrite E. reflexivity.
+Qed.
+
+Definition ill_posed_metric (axis_dims : list (string * list string)) (array_dims axes : list string) : bool :=
+  existsb (fun ax => match lookupS ax axis_dims with
+                     | None => true
+                     | Some ds => negb (List.length (filter (fun d => memS d array_dims) ds) =? 1)
+                     end) axes.
+
+Theorem get_metric_refuses axis_dims reg ad axes :
+  ill_posed_metric axis_dims ad axes = true ->
+  exists e, get_metric axis_dims reg ad axes = Err e.
+Proof.
+  intros H. unfold ill_posed_metric in H. apply existsb_exists in H. destruct H as (ax & Hin & Hax).
+  unfold get_metric.
+  match goal with |- context [forM_ ?f0 (dedup_s axes)] => set (f := f0) end.
+  assert (F : exists e, f ax = Err e).
+  { subst f. cbv beta. destruct (lookupS ax axis_dims) as [ds|]; [|exists KeyError; reflexivity].
+    destruct (filter (fun d => memS d ad) ds) as [|d0 [|d1 l]]; try (exists ValueError; reflexivity).
+    discriminate. }
+  destruct F as [e F].
+  destruct (forM_err_in f (dedup_s axes) ax e (in_dedup_s ax axes Hin) F) as [e' E].
+  rewrite E. exists e'. reflexivity.
+Qed.
